@@ -3,6 +3,8 @@ package props
 import (
 	"io"
 
+	"github.com/elastic/go-structform/gotype"
+
 	"verif/harness/ev"
 	"verif/harness/gen"
 	"verif/harness/rt"
@@ -85,3 +87,86 @@ func reuseParser(h *rt.H, c *codec) {
 func REUSE_Parse_cborl(h *rt.H)  { reuseParser(h, cborCodec) }
 func REUSE_Parse_ubjson(h *rt.H) { reuseParser(h, ubjsonCodec) }
 func REUSE_Parse_json(h *rt.H)   { reuseParser(h, jsonCodec) }
+
+type itIn struct{ X int8 }
+
+type itInlinePtr struct {
+	A int8
+	P *itIn `struct:",inline"`
+}
+
+type itInline struct {
+	In itIn `struct:",inline"`
+	B  int8
+}
+
+type itRegular struct {
+	In itIn
+	P  *itIn
+	S  []*itIn
+}
+
+// itValue: a small family of values whose types share itIn / *itIn in regular and
+// inlined positions (the iterator caches compiled folders per type).
+func itValue(h *rt.H, k int, x int8) interface{} {
+	in := &itIn{X: x}
+	switch k {
+	case 0:
+		return itIn{X: x}
+	case 1:
+		return in
+	case 2:
+		return itInlinePtr{A: 1, P: in}
+	case 3:
+		return itInlinePtr{A: 1}
+	case 4:
+		return itInline{In: itIn{X: x}, B: 2}
+	case 5:
+		return itRegular{In: itIn{X: x}, P: in, S: []*itIn{in, nil}}
+	case 6:
+		return map[string]*itIn{"k": in}
+	}
+	return []interface{}{in, itIn{X: x}}
+}
+
+// REUSE_Iterator (C17): an Iterator that has folded value A folds probe B exactly as
+// a fresh Iterator does.
+func REUSE_Iterator(h *rt.H) {
+	a, b := h.Choose("A", 0, 7), h.Choose("B", 0, 7)
+	x, y := int8(h.U8("x")), int8(h.U8("y"))
+	var rec ev.Recorder
+	it, err := gotype.NewIterator(&rec)
+	h.Assert("iterator-created", err == nil)
+	h.Assert("history-folded", it.Fold(itValue(h, a, x)) == nil)
+	mark := len(rec.Events)
+	h.Assert("probe-folded", it.Fold(itValue(h, b, y)) == nil)
+	var fresh ev.Recorder
+	h.Assert("fresh-folded", gotype.Fold(itValue(h, b, y), &fresh) == nil)
+	h.Assert("same-events", ev.Equal(rec.Events[mark:], fresh.Events))
+	h.Assert("contract", ev.Contract(fresh.Events) == "" && ev.Contract(rec.Events[mark:]) == "")
+	h.ObserveBytes("probe-events", ev.Serialize(fresh.Events))
+}
+
+// REUSE_Unfolder (C17): an Unfolder that has completely unfolded document A into one
+// target builds, after SetTarget, the same value from document B as a fresh one.
+func REUSE_Unfolder(h *rt.H) {
+	cfg := genCfg(h)
+	cfg.Small = true
+	a := gen.Value(h, cfg)
+	cfg2 := genCfg(h)
+	cfg2.Small = true
+	b := gen.Value(h, cfg2)
+	distinctKeys(h, a)
+	distinctKeys(h, b)
+	known := h.Choose("known", 0, 1) == 1
+	var t1, t2, t3 interface{}
+	u, err := gotype.NewUnfolder(&t1)
+	h.Assert("unfolder-created", err == nil)
+	h.Assert("history-unfolded", emit(a, u, known) == nil)
+	h.Assert("settarget", u.SetTarget(&t2) == nil)
+	h.Assert("probe-unfolded", emit(b, u, known) == nil)
+	u2, err := gotype.NewUnfolder(&t3)
+	h.Assert("fresh-created", err == nil)
+	h.Assert("fresh-unfolded", emit(b, u2, known) == nil)
+	h.Assert("same-value", matches(t2, b) && matches(t3, b) && matches(t1, a))
+}
